@@ -15,7 +15,7 @@ def run(ctx):
     L = relift(ctx)
     hs = os.path.join(H, 'h_length.c')
     U = 6
-    RB = 16 if thorough else 12
+    RB = 14 if thorough else 12
     qs = []
     for nm, sg in (('length-positive-step', 1), ('length-negative-step', -1)):
         qs.append(Query(nm, L, hs, ['U=%d' % U, 'RB=%d' % RB, 'STEPSIGN=%d' % sg], unwind=U + 2, timeout=3000 if thorough else 400, backend='cadical',
